@@ -2,11 +2,22 @@
 // (gfqkronecker.h cannot be compiled in this tree: it includes givaro/givzpz.h and givaro/givzpzInt.h, which do not exist,
 //  and uses ModularRandIter with two template arguments; GFqKronecker is therefore not instantiable by any user.)
 // stdin lines:
-//   gf2 <variant> <e|b> a b c          -> result bit  (e = Element& overload, b = BitReference overload)
-//   gf2desc                            -> "card char size residu zero one mone cardI charI"
+//   gf2 <way> <variant> <e|b> <prev> <pos> a b c -> "<destination after the call> <value of the returned reference>"
+//        way: 0 GF2(), 1 GF2(2,1), 2 copy-constructed, 3 assigned, 4 self-assigned; e = Element& overload, b = BitReference overload
+//        (a bit of a 130-bit std::vector<bool> at position pos; every other bit must stay unchanged); prev = previous content
+//   gf2desc <way>                      -> "card char size residu zero one mone cardI charI min max"
 //   ext <gfq|mod> <pe|bf|pol> <p> <k> [| c0 .. ck]   -> "E <card> <cardI> <char> <charI> <expo> <order> I <irred p-adic> Z <zero> <one> <mone>"
 //   eop <variant> a b c                -> p-adic value of the result (operands are p-adic values < p^k)
-//   gext <ext|fast> <p> <k>            -> "G <q> <irred> <gen> <card> <char> <expo> H <hash log2pol>"
+//   gext <ext|fast> <p> <k> <way> <p2> <k2> [| c0 .. ck]  -> "G <q> <irred> <gen> <card> <char> <expo> H <hash log2pol> Q <bits> <base> <mask> <maxdot> <char(UTT&)> <X>"
+//        way: d constructed in place, c copy-constructed (source destroyed), a assigned over a default-constructed object,
+//        o assigned over a field GF(p2^k2), s assigned to itself, h copy kept while its source is overwritten, t assigned twice
+//        (GF(p2^k2) first), m constructed from (p, k, modulus polynomial)
+//   gdotn <n> a b                      -> init( n times convert(a)*convert(b) accumulated )  -> "<rep> <p-adic>"
+//   gdotw <mode>                       -> n = maxdot() | maxdot()-1 | maxdot()/2 products of the all-(p-1) element with itself: "<n> <rep> <p-adic>"
+//   groundtrip a                       -> init(rep, convert(d, a)) -> "<rep> <p-adic>"
+//   gflt <integer>                     -> init(rep, float) / convert(float&) -> "<rep> <p-adic> <convert(float) of rep>"
+//   ginitul <n>                        -> init(rep, unsigned long) -> "<rep> <p-adic>"
+//   grand <n>                          -> n calls of random(g, r): "<min p-adic> <max p-adic> <count outside the field>"
 //   gop <variant> a b c                -> GFqDom scalar operation through the derived class (Zech representations)
 //   gconv a                            -> convert(double|Ints, a) as an integer
 //   ginit <integer>                    -> init(rep, double|Ints) -> "<rep> <p-adic>"
@@ -55,25 +66,45 @@ template <class Base> struct ExtS : public Session {
     static Base mk_base(unsigned long p, unsigned long, Modular<int64_t>*) { return Modular<int64_t>((int64_t)p); }
     static std::string base_info(const GFqDom<int64_t>& b) { std::ostringstream o; o << (ll)b.cardinality() << " " << (ll)b.exponent() << " " << (b.exponent() > 1 ? (ll)b.irreducible() : -1) << " " << (ll)b.generator(); return o.str(); }
     static std::string base_info(const Modular<int64_t>& b) { std::ostringstream o; o << (ll)b.cardinality() << " 1 -1 0"; return o.str(); }
-    ExtS(const std::vector<std::string>& t) : B(mk_base(strtoul(t[3].c_str(), 0, 10), (t[2] == "tower" && t.size() > 5) ? strtoul(t[5].c_str(), 0, 10) : 1, (Base*)0)), F(0) {
+    // way (token "w=<c>[,p2,k2]" at the end of the ext line): how the object that is used was obtained from the constructed one
+    static Ext* obtain(Ext& G, char way, unsigned long p2, unsigned long k2) {
+        if (way == 'c') return new Ext(G);                                   // copy constructor
+        if (way == 'a') { Ext H; H = G; return new Ext(H); }                  // operator= over a default-constructed object, then copy
+        if (way == 'o') { Ext* H = new Ext(mk_base(p2, 1, (Base*)0), (typename Ext::Residu_t)k2); *H = G; return H; }   // over another field
+        if (way == 's') { Ext* H = new Ext(G); Ext& R = *H; *H = R; return H; }                                        // self-assignment
+        if (way == 'h') { Ext* A = new Ext(G); Ext* C = new Ext(*A); *A = Ext(mk_base(p2, 1, (Base*)0), (typename Ext::Residu_t)k2); delete A; return C; }
+        if (way == 't') { Ext* H = new Ext(); *H = Ext(mk_base(p2, 1, (Base*)0), (typename Ext::Residu_t)k2); *H = G; return H; }
+        return 0;
+    }
+    ExtS(const std::vector<std::string>& t0) : B(mk_base(strtoul(t0[3].c_str(), 0, 10), (t0[2] == "tower" && t0.size() > 5 && t0[5][0] != 'w' && t0[5] != "|") ? strtoul(t0[5].c_str(), 0, 10) : 1, (Base*)0)), F(0) {
+        std::vector<std::string> t(t0);
+        char way = 0; unsigned long p2 = 2, k2 = 2;
+        if (!t.empty() && t.back().compare(0, 2, "w=") == 0) {
+            std::string w = t.back().substr(2); t.pop_back(); way = w[0];
+            size_t c1 = w.find(','), c2 = w.find(',', c1 == std::string::npos ? 0 : c1 + 1);
+            if (c1 != std::string::npos && c2 != std::string::npos) { p2 = strtoul(w.substr(c1 + 1, c2 - c1 - 1).c_str(), 0, 10); k2 = strtoul(w.substr(c2 + 1).c_str(), 0, 10); }
+        }
         unsigned long p = strtoul(t[3].c_str(), 0, 10); k = strtoul(t[4].c_str(), 0, 10);
-        if (t[2] == "pe") { F = mk_pe(p, k, (Base*)0); }
-        else if (t[2] == "bf" || t[2] == "tower") { Ext G(B, (typename Ext::Residu_t)k); Ext H; H = G; F = new Ext(H); }               // operator=
+        if (t[2] == "pe") { F = mk_pe(p, k, way ? way : 'c', p2, k2, (Base*)0); }
+        else if (t[2] == "bf" || t[2] == "tower") { Ext G(B, (typename Ext::Residu_t)k); F = obtain(G, way ? way : 'a', p2, k2); }
         else {
             std::vector<std::vector<std::string> > parts = split_bar(t, 5);
             Pol PD(B, "Y"); typename Pol::Element irr(parts[1].size());
             for (size_t i = 0; i < parts[1].size(); ++i) B.init(irr[i], (int64_t)strtoll(parts[1][i].c_str(), 0, 10));
-            Ext G(PD, irr); Ext H; H = G; F = new Ext(H);
+            Ext G(PD, irr); F = obtain(G, way ? way : 'a', p2, k2);
         }
+        if (!F) throw 1;
         // coefficients are read and written through the base field the extension really uses
         B = F->base_field(); Integer cb; B.cardinality(cb); P = cb;
     }
-    static Ext* mk_pe(unsigned long p, unsigned long k, GFqDom<int64_t>*) { Ext G((typename Ext::Residu_t)p, (typename Ext::Residu_t)k); return new Ext(G); }  // copy ctor
-    static Ext* mk_pe(unsigned long, unsigned long, Modular<int64_t>*) { return 0; }     // Extension<Modular>(p,e) does not exist
+    static Ext* mk_pe(unsigned long p, unsigned long k, char way, unsigned long p2, unsigned long k2, GFqDom<int64_t>*) { Ext G((typename Ext::Residu_t)p, (typename Ext::Residu_t)k); return obtain(G, way, p2, k2); }
+    static Ext* mk_pe(unsigned long, unsigned long, char, unsigned long, unsigned long, Modular<int64_t>*) { return 0; }     // Extension<Modular>(p,e) does not exist
     ~ExtS() { delete F; }
+    static bool okrep(const GFqDom<int64_t>& b, int64_t r) { return r >= 0 && (uint64_t)r < (uint64_t)b.cardinality(); }
+    static bool okrep(const Modular<int64_t>& b, int64_t r) { return r >= 0 && r < (int64_t)b.cardinality(); }
     Integer val(const Elt& e) const {       // p-adic value computed by hand from the coefficients (independent of Extension::convert)
-        Integer r(0);
-        for (size_t i = e.size(); i-- > 0;) { Integer c; B.convert(c, e[i]); r = r * P + c; }
+        Integer r(0);                       // -1: a coefficient is no element of the base field (its conversion would read out of bounds)
+        for (size_t i = e.size(); i-- > 0;) { if (!okrep(B, (int64_t)e[i])) return Integer(-1); Integer c; B.convert(c, e[i]); r = r * P + c; }
         return r;
     }
     Elt elt(const std::string& s) const {   // element with the given p-adic value, normalised (no leading zero coefficient)
@@ -152,15 +183,28 @@ template <class Fld> struct Conv;
 template <> struct Conv<GFqExtFast<int32_t> > { typedef double T; };
 template <> struct Conv<GFqExt<int32_t> > { typedef double T; };
 
+template <class Fld> struct Mk { static Fld* mod(unsigned long, unsigned long, const std::vector<int64_t>&) { return 0; } };
+template <> struct Mk<GFqExtFast<int32_t> > {
+    static GFqExtFast<int32_t>* mod(unsigned long p, unsigned long k, const std::vector<int64_t>& m) { return new GFqExtFast<int32_t>((uint32_t)p, (uint32_t)k, m); }
+};
 template <class Fld> struct GS : public Session {
     typedef typename Fld::Element Elt;
     typedef typename Conv<Fld>::T CT;
-    Fld F;
-    GS(unsigned long p, unsigned long k) : F() {
-        Fld G((typename Fld::Residu_t)p, (typename Fld::Residu_t)k);
-        Fld H(G);        // copy constructor
-        F = H;           // hand-written operator=
+    Fld* Fp; Fld& F;
+    static Fld* obtain(unsigned long p, unsigned long k, char way, unsigned long p2, unsigned long k2, const std::vector<int64_t>& m) {
+        typedef typename Fld::Residu_t R;
+        if (way == 'd') return new Fld((R)p, (R)k);                                         // used where it was constructed
+        if (way == 'c') { Fld* G = new Fld((R)p, (R)k); Fld* H = new Fld(*G); delete G; return H; }   // copy constructor, source destroyed
+        if (way == 'a') { Fld G((R)p, (R)k); Fld* H = new Fld(); *H = G; return H; }          // operator= over a default-constructed object
+        if (way == 'o') { Fld G((R)p, (R)k); Fld* H = new Fld((R)p2, (R)k2); *H = G; return H; }   // over a field of other characteristic / degree / bit length
+        if (way == 's') { Fld* H = new Fld((R)p, (R)k); Fld& r = *H; *H = r; return H; }      // self-assignment
+        if (way == 'h') { Fld* A = new Fld((R)p, (R)k); Fld* C = new Fld(*A); *A = Fld((R)p2, (R)k2); delete A; return C; }
+        if (way == 't') { Fld G((R)p, (R)k); Fld* H = new Fld(); *H = Fld((R)p2, (R)k2); *H = G; Fld* C = new Fld(); *C = *H; delete H; return C; }
+        if (way == 'm') return Mk<Fld>::mod(p, k, m);
+        return 0;
     }
+    GS(unsigned long p, unsigned long k, char way, unsigned long p2, unsigned long k2, const std::vector<int64_t>& m) : Fp(obtain(p, k, way, p2, k2, m)), F(*Fp) { if (!Fp) throw 1; }
+    ~GS() { delete Fp; }
     static Integer toI(const double& d) { return Integer(d); }
     static Integer toI(const Integer& d) { return d; }
     static void fromI(double& d, const Integer& i) { d = (double)i; }
@@ -169,8 +213,10 @@ template <class Fld> struct GS : public Session {
         std::vector<ll> a; size_t q = (size_t)F.cardinality();
         for (size_t i = 0; i < q; ++i) a.push_back((ll)F.zech2padic(i));
         std::ostringstream o;
+        typename Fld::Residu_t chu = 0; F.characteristic(chu);
         o << "G " << q << " " << (ll)F.irreducible() << " " << (ll)F.generator() << " " << (ll)F.cardinality() << " " << (ll)F.characteristic() << " " << (ll)F.exponent()
-          << " H " << hash1(a);
+          << " H " << hash1(a) << " Q " << (ll)F.bits() << " " << (ll)F.base() << " " << (ll)F.mask() << " " << (ll)F.maxdot() << " " << (ll)chu
+          << " " << (F.exponent() > 1 ? (ll)F.zech2padic((size_t)F.indeterminate()) : -1);
         return o.str();
     }
     std::string rp(Elt r) { std::ostringstream o; o << (ll)r << " " << (ll)F.zech2padic((size_t)r); return o.str(); }
@@ -193,6 +239,27 @@ template <class Fld> struct GS : public Session {
         }
         if (t[0] == "gconv") { Elt a = (Elt)strtoll(t[1].c_str(), 0, 10); CT d; F.convert(d, a); o << toI(d); return o.str(); }
         if (t[0] == "ginit") { CT d; fromI(d, Integer(t[1].c_str())); Elt r = -99; F.init(r, d); return rp(r); }
+        if (t[0] == "gdotn") {        // n times the same product accumulated (worst-case digits of the packed accumulator)
+            unsigned long n = strtoul(t[1].c_str(), 0, 10); CT x, y, acc; fromI(acc, Integer(0));
+            F.convert(x, (Elt)strtoll(t[2].c_str(), 0, 10)); F.convert(y, (Elt)strtoll(t[3].c_str(), 0, 10));
+            for (unsigned long j = 0; j < n; ++j) acc += x * y;
+            Elt r = -99; F.init(r, acc); return rp(r);
+        }
+        if (t[0] == "gdotw") {        // the documented limit: n = maxdot() (mode 0), maxdot()-1 (1), maxdot()/2 (2) products of the element whose
+            int mode = atoi(t[1].c_str());   // coefficients are all p-1 with itself -> "<n> <rep> <p-adic>"
+            unsigned long n = (unsigned long)F.maxdot(); if (mode == 1 && n > 0) --n; if (mode == 2) n /= 2;
+            Elt top = (Elt)F.padic2zech((size_t)F.cardinality() - 1); CT x, acc; fromI(acc, Integer(0)); F.convert(x, top);
+            for (unsigned long j = 0; j < n; ++j) acc += x * x;
+            Elt r = -99; F.init(r, acc); o << n << " " << rp(r); return o.str();
+        }
+        if (t[0] == "groundtrip") { Elt a = (Elt)strtoll(t[1].c_str(), 0, 10); CT d; F.convert(d, a); Elt r = -99; F.init(r, d); return rp(r); }
+        if (t[0] == "gflt") { float f = (float)strtod(t[1].c_str(), 0); Elt r = -99; F.init(r, f); float back = -1; F.convert(back, r); o << rp(r) << " " << (ll)back; return o.str(); }
+        if (t[0] == "ginitul") { unsigned long n = strtoul(t[1].c_str(), 0, 10); Elt r = -99; F.init(r, n); return rp(r); }
+        if (t[0] == "grand") {
+            unsigned long n = strtoul(t[1].c_str(), 0, 10); GivRandom g(12345); ll mn = -1, mx = -1, bad = 0; ll q = (ll)F.cardinality();
+            for (unsigned long j = 0; j < n; ++j) { Elt r = -99; F.random(g, r); if (r < 0 || (ll)r >= q) { ++bad; continue; } ll v = (ll)F.zech2padic((size_t)r); if (mn < 0 || v < mn) mn = v; if (v > mx) mx = v; }
+            o << mn << " " << mx << " " << bad; return o.str();
+        }
         if (t[0] == "gdot") {
             std::vector<std::vector<std::string> > parts = split_bar(t, 2);
             CT acc; fromI(acc, Integer(0));
@@ -207,15 +274,27 @@ template <class Fld> struct GS : public Session {
 };
 
 // ------------------------------------------------------------------ GF2
+static GF2* gf2_obtain(int way) {
+    if (way == 1) return new GF2(2, 1);
+    if (way == 2) { GF2 G; return new GF2(G); }                 // copy constructor
+    if (way == 3) { GF2 G(2); GF2* H = new GF2(); *H = G; return H; }     // operator=
+    if (way == 4) { GF2* H = new GF2(); GF2& r = *H; *H = r; return H; }  // self-assignment
+    return new GF2();
+}
+static const size_t GF2_BITS = 130;
+// one call of a GF2 operation: every one of the 18 arithmetic variants + assign / init / convert, for both destination kinds.
+// Prints the destination after the call and the value of the returned reference (they must agree).
 static std::string gf2_line(const std::vector<std::string>& t) {
-    GF2 F; std::ostringstream o;
+    std::ostringstream o;
     if (t[0] == "gf2desc") {
-        Integer ci, chi; F.cardinality(ci); F.characteristic(chi);
+        GF2* Fp = gf2_obtain(t.size() > 1 ? atoi(t[1].c_str()) : 0); GF2& F = *Fp;
+        Integer ci, chi; F.cardinality(ci); F.characteristic(chi); uint64_t c64 = 0, h64 = 0; F.cardinality(c64); F.characteristic(h64);
         o << (int)F.cardinality() << " " << (int)F.characteristic() << " " << (int)F.size() << " " << (int)F.residu() << " " << F.zero << " " << F.one << " " << F.mOne
-          << " " << ci << " " << chi << " " << F.minElement() << " " << F.maxElement();
-        return o.str();
+          << " " << ci << " " << chi << " " << F.minElement() << " " << F.maxElement() << " " << c64 << " " << h64 << " " << GF2::maxCardinality();
+        delete Fp; return o.str();
     }
     if (t[0] == "gf2a") {     // gf2a <variant> <e|b> <pattern> v1 v2 v3
+        GF2 F;
         bool vals[3] = {false, false, false};
         for (size_t i = 4; i < t.size() && i < 7; ++i) vals[i - 4] = (t[i] == "1");
         if (t[2] == "e") {
@@ -231,27 +310,70 @@ static std::string gf2_line(const std::vector<std::string>& t) {
         for (int i = 0; i < 6; ++i) if (i != t[3][0] - '0' && sl[i] != before[i]) return "OTHER-BIT-CHANGED";
         o << sl[t[3][0] - '0']; return o.str();
     }
-    const std::string& v = t[1]; bool useref = (t[2] == "b");
-    bool a = t[3] == "1", b = t.size() > 4 && t[4] == "1", c = t.size() > 5 && t[5] == "1";
-    std::vector<bool> store(3, true); bool re = true;
-#define GF2_CALL3(op) { if (useref) { store[1] = !0; F.op(store[1], a, b); re = store[1]; } else F.op(re, a, b); }
-#define GF2_CALL2(op) { if (useref) { F.op(store[1], a); re = store[1]; } else F.op(re, a); }
-#define GF2_IN2(op) { if (useref) { store[1] = a; F.op(store[1], b); re = store[1]; } else { re = a; F.op(re, b); } }
-#define GF2_IN1(op) { if (useref) { store[1] = a; F.op(store[1]); re = store[1]; } else { re = a; F.op(re); } }
-#define GF2_CALL4(op) { if (useref) { F.op(store[1], a, b, c); re = store[1]; } else F.op(re, a, b, c); }
-#define GF2_IN3(op) { if (useref) { store[1] = a; F.op(store[1], b, c); re = store[1]; } else { re = a; F.op(re, b, c); } }
-    if (v == "add") GF2_CALL3(add) else if (v == "sub") GF2_CALL3(sub) else if (v == "mul") GF2_CALL3(mul) else if (v == "div") GF2_CALL3(div)
-    else if (v == "neg") GF2_CALL2(neg) else if (v == "inv") GF2_CALL2(inv)
-    else if (v == "addin") GF2_IN2(addin) else if (v == "subin") GF2_IN2(subin) else if (v == "mulin") GF2_IN2(mulin) else if (v == "divin") GF2_IN2(divin)
-    else if (v == "negin") GF2_IN1(negin) else if (v == "invin") GF2_IN1(invin)
-    else if (v == "axpy") GF2_CALL4(axpy) else if (v == "axmy") GF2_CALL4(axmy) else if (v == "maxpy") GF2_CALL4(maxpy)
-    else if (v == "axpyin") GF2_IN3(axpyin) else if (v == "axmyin") GF2_IN3(axmyin) else if (v == "maxpyin") GF2_IN3(maxpyin)
-    else if (v == "pred") { o << F.isZero(a) << F.isOne(a) << F.isMOne(a) << F.isUnit(a) << F.areEqual(a, b); return o.str(); }
-    else if (v == "init") { Integer x(t[3].c_str()); if (useref) { F.init(store[1], x); re = store[1]; } else F.init(re, x); }
-    else return "UNKNOWN-OP";
-    // neighbours of the written bit must be untouched
-    if (useref && !(store[0] && store[2])) return "NEIGHBOUR-BIT-CHANGED";
-    o << re; return o.str();
+    if (t[0] == "gf2rand") {   // gf2rand <e|b> <n> -> "<zeros> <ones> <nonzerorandom results that are 0>"
+        GF2 F; GivRandom g(4242); int n = atoi(t[2].c_str()), c0 = 0, c1 = 0, nz0 = 0; std::vector<bool> st(3, false);
+        for (int i = 0; i < n; ++i) {
+            bool e = false;
+            if (t[1] == "e") { F.random(g, e); (e ? c1 : c0)++; F.nonzerorandom(g, e); if (!e) ++nz0; }
+            else { F.random(g, st[1]); (st[1] ? c1 : c0)++; st[1] = false; F.nonzerorandom(g, st[1]); if (!st[1]) ++nz0; }
+        }
+        o << c0 << " " << c1 << " " << nz0; return o.str();
+    }
+    // gf2 <way> <variant> <e|b> <prev> <pos> a b c
+    if (t.size() < 7) return "BAD-LINE";
+    GF2* Fp = gf2_obtain(atoi(t[1].c_str())); GF2& F = *Fp;
+    const std::string& v = t[2]; bool useref = (t[3] == "b"); bool prev = (t[4] == "1"); size_t pos = (size_t)atoi(t[5].c_str()) % GF2_BITS;
+    bool a = t[6] == "1", b = t.size() > 7 && t[7] == "1", c = t.size() > 8 && t[8] == "1";
+    Integer big(t[6].c_str());
+    std::vector<bool> store(GF2_BITS); for (size_t i = 0; i < GF2_BITS; ++i) store[i] = ((i * 7 + 3) % 5 < 2);
+    bool re = prev, ret = false; store[pos] = prev;
+    bool inplace = c05_inplace(v);
+    if (inplace) { re = a; store[pos] = a; }
+    std::vector<bool> before(store);
+#define GF2_DO(call_e, call_b) { if (useref) { GF2::BitReference rr = call_b; ret = (bool)rr; } else { bool& rr = call_e; ret = rr; if (&rr != &re) { delete Fp; return "RETURNED-OTHER-OBJECT"; } } }
+    if (v == "add") GF2_DO(F.add(re, a, b), F.add(store[pos], a, b))
+    else if (v == "sub") GF2_DO(F.sub(re, a, b), F.sub(store[pos], a, b))
+    else if (v == "mul") GF2_DO(F.mul(re, a, b), F.mul(store[pos], a, b))
+    else if (v == "div") GF2_DO(F.div(re, a, b), F.div(store[pos], a, b))
+    else if (v == "neg") GF2_DO(F.neg(re, a), F.neg(store[pos], a))
+    else if (v == "inv") GF2_DO(F.inv(re, a), F.inv(store[pos], a))
+    else if (v == "assign") GF2_DO(F.assign(re, a), F.assign(store[pos], a))
+    else if (v == "axpy") GF2_DO(F.axpy(re, a, b, c), F.axpy(store[pos], a, b, c))
+    else if (v == "axmy") GF2_DO(F.axmy(re, a, b, c), F.axmy(store[pos], a, b, c))
+    else if (v == "maxpy") GF2_DO(F.maxpy(re, a, b, c), F.maxpy(store[pos], a, b, c))
+    else if (v == "addin") GF2_DO(F.addin(re, b), F.addin(store[pos], b))
+    else if (v == "subin") GF2_DO(F.subin(re, b), F.subin(store[pos], b))
+    else if (v == "mulin") GF2_DO(F.mulin(re, b), F.mulin(store[pos], b))
+    else if (v == "divin") GF2_DO(F.divin(re, b), F.divin(store[pos], b))
+    else if (v == "negin") GF2_DO(F.negin(re), F.negin(store[pos]))
+    else if (v == "invin") GF2_DO(F.invin(re), F.invin(store[pos]))
+    else if (v == "axpyin") GF2_DO(F.axpyin(re, b, c), F.axpyin(store[pos], b, c))
+    else if (v == "axmyin") GF2_DO(F.axmyin(re, b, c), F.axmyin(store[pos], b, c))
+    else if (v == "maxpyin") GF2_DO(F.maxpyin(re, b, c), F.maxpyin(store[pos], b, c))
+    else if (v == "init_Integer") GF2_DO(F.init(re, big), F.init(store[pos], big))
+    else if (v == "init_none") GF2_DO(F.init(re), F.init(store[pos]))
+    else if (v == "convert_bit") { GF2::BitReference rr = F.convert(store[pos], a); ret = (bool)rr; re = store[pos]; useref = true; }
+    else if (!useref && v == "init_i32") { bool& rr = F.init(re, (int32_t)strtoll(t[6].c_str(), 0, 10)); ret = rr; }
+    else if (!useref && v == "init_u32") { bool& rr = F.init(re, (uint32_t)strtoull(t[6].c_str(), 0, 10)); ret = rr; }
+    else if (!useref && v == "init_i64") { bool& rr = F.init(re, (int64_t)strtoll(t[6].c_str(), 0, 10)); ret = rr; }
+    else if (!useref && v == "init_u64") { bool& rr = F.init(re, (uint64_t)strtoull(t[6].c_str(), 0, 10)); ret = rr; }
+    else if (!useref && v == "init_dbl") { bool& rr = F.init(re, (double)strtod(t[6].c_str(), 0)); ret = rr; }
+    else if (!useref && v == "init_flt") { bool& rr = F.init(re, (float)strtod(t[6].c_str(), 0)); ret = rr; }
+    else if (!useref && v == "convert") {   // convert(Integer&), convert<int>, convert<double>, convert<uint64_t>: all must give the same 0/1
+        Integer ci(7); F.convert(ci, a); int cn = 7; F.convert(cn, a); double cd = 7; F.convert(cd, a); uint64_t cu = 7; F.convert(cu, a);
+        delete Fp;
+        if (ci != Integer(cn) || (double)cn != cd || (uint64_t)cn != cu) return "CONVERT-OVERLOADS-DISAGREE";
+        o << cn << " " << cn; return o.str();
+    }
+    else if (!useref && v == "pred") { o << F.isZero(a) << F.isOne(a) << F.isMOne(a) << F.isUnit(a) << F.areEqual(a, b); delete Fp; return o.str(); }
+    else { delete Fp; return "UNKNOWN-OP"; }
+#undef GF2_DO
+    delete Fp;
+    if (useref) {
+        for (size_t i = 0; i < GF2_BITS; ++i) if (i != pos && store[i] != before[i]) return "OTHER-BIT-CHANGED";
+        re = store[pos];
+    }
+    o << re << " " << ret; return o.str();
 }
 
 int main() {
@@ -262,7 +384,7 @@ int main() {
         if (t.empty()) continue;
         std::string out;
         try {
-            if (t[0] == "gf2" || t[0] == "gf2desc" || t[0] == "gf2a") out = gf2_line(t);
+            if (t[0] == "gf2" || t[0] == "gf2desc" || t[0] == "gf2a" || t[0] == "gf2rand") out = gf2_line(t);
             else if (t[0] == "ext") {
                 delete cur; cur = 0;
                 if (t[1] == "gfq") cur = new ExtS<GFqDom<int64_t> >(t); else cur = new ExtS<Modular<int64_t> >(t);
@@ -270,8 +392,12 @@ int main() {
             } else if (t[0] == "gext") {
                 delete cur; cur = 0;
                 unsigned long p = strtoul(t[2].c_str(), 0, 10), k = strtoul(t[3].c_str(), 0, 10);
-                if (t[1] == "ext") cur = new GS<GFqExt<int32_t> >(p, k);
-                else cur = new GS<GFqExtFast<int32_t> >(p, k);
+                char way = t.size() > 4 ? t[4][0] : 'a';
+                unsigned long p2 = t.size() > 5 ? strtoul(t[5].c_str(), 0, 10) : 2, k2 = t.size() > 6 ? strtoul(t[6].c_str(), 0, 10) : 2;
+                std::vector<int64_t> m; std::vector<std::vector<std::string> > parts = split_bar(t, 4);
+                if (parts.size() > 1) for (size_t i = 0; i < parts[1].size(); ++i) m.push_back(strtoll(parts[1][i].c_str(), 0, 10));
+                if (t[1] == "ext") cur = new GS<GFqExt<int32_t> >(p, k, way, p2, k2, m);
+                else cur = new GS<GFqExtFast<int32_t> >(p, k, way, p2, k2, m);
                 out = cur->describe();
             } else if (!cur) out = "NO-FIELD";
             else out = cur->line(t);
